@@ -190,6 +190,34 @@ func (a altProvider) GetModuleDatasForModuleKeys(ctx context.Context, keys []buf
 	return out, nil
 }
 
+// pinnedProvider is a registry stand-in built by the harness itself: every remote module is served
+// with a module key whose digest is the published construction's value and with pinned dependency
+// keys for its whole closure plus its forks. buf re-computes the digest when the data is used (tamper
+// check); a disagreement surfaces as *bufmodule.DigestMismatchError carrying buf's own value.
+type pinnedProvider struct {
+	datas map[string]bufmodule.ModuleData // by full name
+}
+
+func (p pinnedProvider) GetModuleDatasForModuleKeys(ctx context.Context, keys []bufmodule.ModuleKey) ([]bufmodule.ModuleData, error) {
+	out := make([]bufmodule.ModuleData, len(keys))
+	for i, k := range keys {
+		d, ok := p.datas[k.FullName().String()]
+		if !ok {
+			return nil, fmt.Errorf("pinned provider: no module %s", k.FullName().String())
+		}
+		out[i] = d
+	}
+	return out, nil
+}
+
+func pinnedKey(name string, id uuid.UUID, digest string) (bufmodule.ModuleKey, error) {
+	fn, err := bufparse.ParseFullName(name)
+	if err != nil {
+		return nil, err
+	}
+	return bufmodule.NewModuleKey(fn, id, func() (bufmodule.Digest, error) { return bufmodule.ParseDigest(digest) })
+}
+
 // storeProvider serves module data only out of a module data store (the module cache format).
 type storeProvider struct {
 	store bufmodulestore.ModuleDataStore
@@ -213,98 +241,113 @@ func observe(ctx context.Context, viewNo int, mods []Mod, v View) (_ observed, r
 	if len(v.Mods) != len(mods) {
 		return observed{}, harnessError{fmt.Errorf("view has %d modules, model %d", len(v.Mods), len(mods))}
 	}
-	// 1. the BSR stand-in with every remote module
-	var remoteDatas []bufmoduletesting.ModuleData
-	var remoteIdx []int
-	altBuckets := map[string]storage.ReadBucket{}
-	for i, mv := range v.Mods {
-		if !mv.Remote {
-			continue
-		}
-		bucket, err := bucketFor(ctx, mods[i], mv, cl)
+	if hasTwins(mods) && v.RemoteVia != "pinned" {
+		return observed{}, harnessError{fmt.Errorf("a graph with forked dependencies needs remote_via=pinned")}
+	}
+	var (
+		remoteIdx      []int
+		keys           []bufmodule.ModuleKey
+		provider       bufmodule.ModuleDataProvider
+		commitProvider bufmodule.CommitProvider = bufmodule.NopCommitProvider
+	)
+	if v.RemoteVia == "pinned" {
+		var err error
+		remoteIdx, keys, provider, err = buildPinned(ctx, viewNo, mods, v, cl)
 		if err != nil {
-			return observed{}, wrapStage("backend:"+mv.Backend, err)
+			return observed{}, err
 		}
-		yaml, err := objectData(mods[i].Yaml)
-		if err != nil {
-			return observed{}, harnessError{err}
-		}
-		lock, err := objectData(mods[i].Lock)
-		if err != nil {
-			return observed{}, harnessError{err}
-		}
-		remoteDatas = append(remoteDatas, bufmoduletesting.ModuleData{
-			Name:              mv.Name,
-			CommitID:          commitID(viewNo, i, mv.Commit),
-			Bucket:            bucket,
-			BufYAMLObjectData: yaml,
-			BufLockObjectData: lock,
-		})
-		remoteIdx = append(remoteIdx, i)
-		if v.RemoteVia == "wrap" {
-			// a second, differently materialised copy for the module data handed to the workspace
-			mv2 := mv
-			mv2.StripNonModule = false
-			if mv2.Backend == "mem" {
-				mv2.Backend = "tar"
-			} else {
-				mv2.Backend = "mem"
+	} else {
+		// 1. the BSR stand-in with every remote module
+		var remoteDatas []bufmoduletesting.ModuleData
+		altBuckets := map[string]storage.ReadBucket{}
+		for i, mv := range v.Mods {
+			if !mv.Remote {
+				continue
 			}
-			b2, err := bucketFor(ctx, mods[i], mv2, cl)
+			bucket, err := bucketFor(ctx, mods[i], mv, cl)
 			if err != nil {
-				return observed{}, wrapStage("backend:"+mv2.Backend, err)
+				return observed{}, wrapStage("backend:"+mv.Backend, err)
 			}
-			altBuckets[mv.Name] = b2
-		}
-	}
-	omni, err := bufmoduletesting.NewOmniProvider(remoteDatas...)
-	if err != nil {
-		return observed{}, wrapStage("omni-provider", err)
-	}
-	var keys []bufmodule.ModuleKey
-	if len(remoteIdx) > 0 {
-		refs := make([]bufparse.Ref, len(remoteIdx))
-		for k, i := range remoteIdx {
-			fn, err := bufparse.ParseFullName(v.Mods[i].Name)
+			yaml, err := objectData(mods[i].Yaml)
 			if err != nil {
 				return observed{}, harnessError{err}
 			}
-			refs[k], err = bufparse.NewRef(fn.Registry(), fn.Owner(), fn.Name(), "")
+			lock, err := objectData(mods[i].Lock)
 			if err != nil {
 				return observed{}, harnessError{err}
 			}
+			remoteDatas = append(remoteDatas, bufmoduletesting.ModuleData{
+				Name:              mv.Name,
+				CommitID:          commitID(viewNo, i, mv.Commit),
+				Bucket:            bucket,
+				BufYAMLObjectData: yaml,
+				BufLockObjectData: lock,
+			})
+			remoteIdx = append(remoteIdx, i)
+			if v.RemoteVia == "wrap" {
+				// a second, differently materialised copy for the module data handed to the workspace
+				mv2 := mv
+				mv2.StripNonModule = false
+				if mv2.Backend == "mem" {
+					mv2.Backend = "tar"
+				} else {
+					mv2.Backend = "mem"
+				}
+				b2, err := bucketFor(ctx, mods[i], mv2, cl)
+				if err != nil {
+					return observed{}, wrapStage("backend:"+mv2.Backend, err)
+				}
+				altBuckets[mv.Name] = b2
+			}
 		}
-		keys, err = omni.GetModuleKeysForModuleRefs(ctx, refs, bufmodule.DigestTypeB5)
+		omni, err := bufmoduletesting.NewOmniProvider(remoteDatas...)
 		if err != nil {
-			return observed{}, wrapStage("module-keys", err)
+			return observed{}, wrapStage("omni-provider", err)
 		}
-	}
-	var provider bufmodule.ModuleDataProvider = omni
-	switch v.RemoteVia {
-	case "omni":
-	case "wrap":
-		provider = altProvider{inner: omni, buckets: altBuckets}
-	case "store-dir", "store-tar":
-		if len(keys) > 0 {
-			var opts []bufmodulestore.ModuleDataStoreOption
-			if v.RemoteVia == "store-tar" {
-				opts = append(opts, bufmodulestore.ModuleDataStoreWithTar())
+		if len(remoteIdx) > 0 {
+			refs := make([]bufparse.Ref, len(remoteIdx))
+			for k, i := range remoteIdx {
+				fn, err := bufparse.ParseFullName(v.Mods[i].Name)
+				if err != nil {
+					return observed{}, harnessError{err}
+				}
+				refs[k], err = bufparse.NewRef(fn.Registry(), fn.Owner(), fn.Name(), "")
+				if err != nil {
+					return observed{}, harnessError{err}
+				}
 			}
-			store := bufmodulestore.NewModuleDataStore(slogext.NopLogger, storagemem.NewReadWriteBucket(), filelock.NewNopLocker(), opts...)
-			datas, err := omni.GetModuleDatasForModuleKeys(ctx, keys)
+			keys, err = omni.GetModuleKeysForModuleRefs(ctx, refs, bufmodule.DigestTypeB5)
 			if err != nil {
-				return observed{}, wrapStage("module-datas", err)
+				return observed{}, wrapStage("module-keys", err)
 			}
-			if err := store.PutModuleDatas(ctx, datas); err != nil {
-				return observed{}, wrapStage("store-put", err)
-			}
-			provider = storeProvider{store: store}
 		}
-	default:
-		return observed{}, harnessError{fmt.Errorf("unknown remote_via %q", v.RemoteVia)}
+		provider, commitProvider = omni, omni
+		switch v.RemoteVia {
+		case "omni":
+		case "wrap":
+			provider = altProvider{inner: omni, buckets: altBuckets}
+		case "store-dir", "store-tar":
+			if len(keys) > 0 {
+				var opts []bufmodulestore.ModuleDataStoreOption
+				if v.RemoteVia == "store-tar" {
+					opts = append(opts, bufmodulestore.ModuleDataStoreWithTar())
+				}
+				store := bufmodulestore.NewModuleDataStore(slogext.NopLogger, storagemem.NewReadWriteBucket(), filelock.NewNopLocker(), opts...)
+				datas, err := omni.GetModuleDatasForModuleKeys(ctx, keys)
+				if err != nil {
+					return observed{}, wrapStage("module-datas", err)
+				}
+				if err := store.PutModuleDatas(ctx, datas); err != nil {
+					return observed{}, wrapStage("store-put", err)
+				}
+				provider = storeProvider{store: store}
+			}
+		default:
+			return observed{}, harnessError{fmt.Errorf("unknown remote_via %q", v.RemoteVia)}
+		}
 	}
 	// 2. the workspace
-	builder := bufmodule.NewModuleSetBuilder(ctx, slogext.NopLogger, provider, omni)
+	builder := bufmodule.NewModuleSetBuilder(ctx, slogext.NopLogger, provider, commitProvider)
 	opaque := make([]string, len(mods))
 	for k, i := range remoteIdx {
 		mv := v.Mods[i]
@@ -385,6 +428,13 @@ func observe(ctx context.Context, viewNo int, mods []Mod, v View) (_ observed, r
 		}
 		d5, err := mod.Digest(bufmodule.DigestTypeB5)
 		if err != nil {
+			var mismatch *bufmodule.DigestMismatchError
+			if v.RemoteVia == "pinned" && errors.As(err, &mismatch) {
+				// the pinned digest IS the published construction's value: buf computed another one
+				return observed{}, wrapStage("pinned-digest-mismatch", fmt.Errorf(
+					"asked for the digest of module %d: for remote module %s (dependencies incl. forks: %d pinned keys) buf computes %s, the published construction gives %s",
+					i, mismatch.FullName, pinnedCount(mods, mismatch.FullName.String(), v), mismatch.ActualDigest, mismatch.ExpectedDigest))
+			}
 			return observed{}, wrapStage(fmt.Sprintf("digest-b5:module%d", i), err)
 		}
 		d4, err := mod.Digest(bufmodule.DigestTypeB4)
@@ -397,6 +447,79 @@ func observe(ctx context.Context, viewNo int, mods []Mod, v View) (_ observed, r
 		}
 	}
 	return out, nil
+}
+
+// buildPinned serves every remote module of the view from the harness' own registry stand-in.
+func buildPinned(ctx context.Context, viewNo int, mods []Mod, v View, cl *cleanup) ([]int, []bufmodule.ModuleKey, bufmodule.ModuleDataProvider, error) {
+	ref := reference(mods)
+	clos := closure(mods)
+	pp := pinnedProvider{datas: map[string]bufmodule.ModuleData{}}
+	keyOf := make([]bufmodule.ModuleKey, len(mods))
+	var remoteIdx []int
+	var keys []bufmodule.ModuleKey
+	for i, mv := range v.Mods {
+		if !mv.Remote {
+			continue
+		}
+		key, err := pinnedKey(mv.Name, commitID(viewNo, i, mv.Commit), ref.b5[i])
+		if err != nil {
+			return nil, nil, nil, harnessError{err}
+		}
+		keyOf[i] = key
+		var depKeys []bufmodule.ModuleKey
+		for _, d := range clos[i] {
+			if keyOf[d] == nil {
+				return nil, nil, nil, harnessError{fmt.Errorf("remote module %d depends on local module %d", i, d)}
+			}
+			depKeys = append(depKeys, keyOf[d])
+		}
+		for k, d := range mods[i].Twins {
+			// the fork: other name, other commit, content (hence digest) of module d
+			id := commitID(viewNo+100, i, 1000+k)
+			fork, err := pinnedKey(fmt.Sprintf("buf.build/forks/of-m%d-for-m%d-%d", d, i, k), id, ref.b5[d])
+			if err != nil {
+				return nil, nil, nil, harnessError{err}
+			}
+			depKeys = append(depKeys, fork)
+		}
+		if len(depKeys) > 1 && mv.Commit%2 == 1 {
+			// the order of pinned keys is irrelevant
+			for a, b := 0, len(depKeys)-1; a < b; a, b = a+1, b-1 {
+				depKeys[a], depKeys[b] = depKeys[b], depKeys[a]
+			}
+		}
+		bucket, err := bucketFor(ctx, mods[i], mv, cl)
+		if err != nil {
+			return nil, nil, nil, wrapStage("backend:"+mv.Backend, err)
+		}
+		yaml, err := objectData(mods[i].Yaml)
+		if err != nil {
+			return nil, nil, nil, harnessError{err}
+		}
+		lock, err := objectData(mods[i].Lock)
+		if err != nil {
+			return nil, nil, nil, harnessError{err}
+		}
+		pp.datas[mv.Name] = bufmodule.NewModuleData(ctx, key,
+			func() (storage.ReadBucket, error) { return bucket, nil },
+			func() ([]bufmodule.ModuleKey, error) { return depKeys, nil },
+			func() (bufmodule.ObjectData, error) { return yaml, nil },
+			func() (bufmodule.ObjectData, error) { return lock, nil },
+		)
+		remoteIdx = append(remoteIdx, i)
+		keys = append(keys, key)
+	}
+	return remoteIdx, keys, pp, nil
+}
+
+func pinnedCount(mods []Mod, name string, v View) int {
+	cl := closure(mods)
+	for i, mv := range v.Mods {
+		if mv.Name == name {
+			return len(cl[i]) + len(mods[i].Twins)
+		}
+	}
+	return -1
 }
 
 type stageError struct {
@@ -439,6 +562,9 @@ func errVerdict(what string, err error) *verdict {
 		if i := strings.IndexByte(stage, ':'); i >= 0 && strings.HasPrefix(stage, "digest-") {
 			stage = stage[:i]
 		}
+	}
+	if stage == "pinned-digest-mismatch" {
+		return bad("digest-ref-mismatch", "%s: %v", what, err)
 	}
 	return bad("digest-error:"+stage, "%s: buf failed on a valid module graph: %v", what, err)
 }
